@@ -54,19 +54,19 @@ def run(ctx):
         res, g = tlc.dump_graph(wd, 'MC_Links.tla', gcfg, timeout=3000)
         ctx.add_tlc('E1 generation ' + gcfg, res, gcfg)
         items = _items([[g.state(n) for n in p] for p in g.behaviours()])
+        del g
         ctx.check_ops(gcfg, items, ['AppendData', 'RemoveData', 'AddComponent', 'RemoveComponent', 'AddLink',
                                     'RemoveLink', 'SetLinks', 'DelayEnter', 'DelayExit'])
         _replay(ctx, items, 'graph ' + gcfg)
         ctx.cov['exhaustive'] = True
-        del g
         # link-graph shapes: everything present from the start, full menu
         g2 = 'GEN_Links_graphs_quick.cfg' if quick else 'GEN_Links_graphs.cfg'
         res, g = tlc.dump_graph(wd, 'MC_Links.tla', g2, timeout=3000)
         ctx.add_tlc('E1 generation ' + g2, res, g2)
         items = _items([[g.state(n) for n in p] for p in g.behaviours()])
+        del g
         ctx.check_ops(g2, items, ['AddLink', 'RemoveLink', 'SetLinks', 'RemoveComponent', 'RemoveData'])
         _replay(ctx, items, 'graph ' + g2)
-        del g
         n, depth = (300, 25) if quick else (6000, 40)
         res, behs = tlc.simulate(wd, 'MC_Links.tla', 'SIM_Links.cfg', num=n, depth=depth, seed=ctx.seed + 1, timeout=3000)
         ctx.cov['tlc_runs'].append({'label': 'E1 simulation SIM_Links.cfg', 'behaviours': len(behs), 'depth': depth})
